@@ -1,8 +1,9 @@
 """C14 - a snippet alias expands exactly like its definition, and resolution ends.
 
 AbbrResolve.tla: every user snippet table over 2-3 keys and the definition shapes (name, with attribute, with text, with a
-child, two siblings - over the keys themselves, so cycles of every kind occur) x eight alias uses (plain, child, class,
-text, repeater, self-closing, attribute + child, two top-level items); TLC checks the stack depth bound and "alias =
+child, two siblings - over the keys themselves, so cycles of every kind occur) x twelve alias uses (plain, child, class,
+text, repeater, self-closing, attribute + child, two top-level items, several class mentions, class + overriding attribute,
+repeated attribute + repeater + child, repeated class on an alias with text); TLC checks the stack depth bound and "alias =
 definition written in place" and prints the expected listing; replayed through expand(use, {'snippets': table}).
 Built-in tables: every key of the html / xsl / pug tables is expanded as alias and as its definition (and with class, text,
 repeater, child appended where the definition is a single element) under the matching syntax; the outputs must be equal.
@@ -13,7 +14,6 @@ import zlib
 import common
 import project_html as ph
 
-ATTR = {'p': ('p', '1'), 'q': ('q', '2'), 'c': ('class', 'c')}
 NONE = '<none>'
 
 
@@ -53,7 +53,7 @@ def _user_chunk(vecs):
         ok = len(got) == len(exp)
         if ok:
             for g, e in zip(got, exp):
-                ea = [list(ATTR[a]) for a in e['attrs']]
+                ea = [list(a) for a in e['attrs']]
                 et = '' if e['text'] == NONE else e['text']
                 if g['d'] != e['d'] or g['n'] != e['n'] or g['attrs'] != ea or (g['leaf'] and g['text'] != et) or \
                         (not g['leaf'] and not g['text'].startswith(et)) or \
@@ -115,10 +115,10 @@ def run(out):
                 'distinct by (table, use) resp. (syntax, form)')
     out.assumptions = ['the self-closing mark is compared through the printed markup (an element with content prints its closing tag)',
                        'built-in forms with modifiers are built textually only for definitions that are a single element']
-    allshapes = {"leaf", "attr", "text", "child", "siblings"}
-    insts = [('two-keys-all-uses', dict(constants={'Keys': {"k1", "k2"}, 'Plain': {"x"}, 'DefShapes': allshapes, 'UseIdx': set(range(1, 9))})),
+    allshapes = {"leaf", "attr", "cls", "text", "child", "siblings"}
+    insts = [('two-keys-all-uses', dict(constants={'Keys': {"k1", "k2"}, 'Plain': {"x"}, 'DefShapes': allshapes, 'UseIdx': set(range(1, 13))})),
              ('three-keys', dict(constants={'Keys': {"k1", "k2", "k3"}, 'Plain': {"x"}, 'DefShapes': {"leaf", "child"} if quick else {"leaf", "child", "siblings"},
-                                            'UseIdx': {1, 2, 8} if quick else {1, 2, 5, 8}}))]
+                                            'UseIdx': {1, 2, 8, 10} if quick else {1, 2, 5, 8, 10, 11}}))]
     for name, kw in insts:
         r = common.run_tlc('AbbrResolve', timeout=3000, heap='12g', **kw)
         if r.violated:
